@@ -172,6 +172,8 @@ type vfEpCfg struct {
 	// the Zero Checksum Acceptable parameter this endpoint sends is rewritten in transit to name another error
 	// detection method than DTLS: the peer was NOT told that zero checksums are acceptable
 	ZCForeign bool `json:"zcforeign"`
+	// this endpoint's Supported Extensions parameter reaches the peer without I-FORWARD-TSN (rewritten in transit)
+	NoIFwdAnnounced bool `json:"noifwd"`
 	OptFlipIL bool `json:"optflipil"`
 	OptFlipZC bool `json:"optflipzc"`
 }
@@ -523,7 +525,7 @@ func (w *vfWorld) cfgEvent() {
 		m[n] = map[string]any{"il": c.IL, "zc": c.ZC, "mtu": int(c.MTU), "buf": int(c.Buf), "maxmsg": int(c.MaxMsg),
 			"W":      int((getMaxTSNOffset(c.Buf) + 63) / 64 * 64),
 			"rtomax": int(c.RTOMax), "bw": c.BlockWrite, "mincwnd": int(c.MinCwnd), "sched": c.Sched,
-			"server": c.Server, "wrapdist": vfWrapDist(c.InitTSN), "zcforeign": c.ZCForeign}
+			"server": c.Server, "wrapdist": vfWrapDist(c.InitTSN), "zcforeign": c.ZCForeign, "noifwd": c.NoIFwdAnnounced}
 	}
 	w.tr.emit(m)
 }
